@@ -35,8 +35,11 @@ type Chain struct {
 
 // BlockRes reports how the hooks of one ABCI call ended.
 type BlockRes struct {
-	Panic bool   `json:"panic"`
-	Err   string `json:"err"`
+	Panic  bool   `json:"panic"`
+	Err    string `json:"err"`
+	Ev     string `json:"ev"` // order-sensitive digest of the events of the ABCI response (real blocks only)
+	NEv    int    `json:"nev"`
+	events []abci.Event
 }
 
 // NewFresh boots the deterministic default genesis of sim.New (one validator, funded actors). sim.New leaves
@@ -61,9 +64,10 @@ func (c *Chain) EndCommit() (br BlockRes) {
 			br = BlockRes{Panic: true, Err: fmt.Sprint(r)}
 		}
 	}()
-	c.App.EndBlock(abci.RequestEndBlock{Height: c.Height})
+	resp := c.App.EndBlock(abci.RequestEndBlock{Height: c.Height})
 	c.App.Commit()
 	c.Open = false
+	br.Ev, br.NEv, br.events = EventDigest(resp.Events), len(resp.Events), resp.Events
 	return
 }
 
@@ -83,7 +87,8 @@ func (c *Chain) Begin(dt time.Duration) (br BlockRes) {
 			br = BlockRes{Panic: true, Err: fmt.Sprint(r)}
 		}
 	}()
-	c.App.BeginBlock(abci.RequestBeginBlock{Header: hdr})
+	resp := c.App.BeginBlock(abci.RequestBeginBlock{Header: hdr})
+	br.Ev, br.NEv, br.events = EventDigest(resp.Events), len(resp.Events), resp.Events
 	c.Height, c.Time, c.Open, c.fresh = h, t, true, false
 	c.Ctx = c.App.BaseApp.NewContext(false, hdr).WithGasMeter(sdk.NewInfiniteGasMeter()).WithBlockGasMeter(sdk.NewInfiniteGasMeter())
 	return
